@@ -121,8 +121,8 @@ func ZZ_C15_RoundTrip() {
 				}
 			}
 		}
-		vrt.Assert("c15.preserved["+pn.name+"]", same && na >= 1)
+		vrt.Check("c15.preserved["+pn.name+"]", same && na >= 1)
 	}
 	pa, pb := k.GetParams(ctx), b.K.GetParams(b.Ctx)
-	vrt.Assert("c15.preserved[params]", pa.GravityId == pb.GravityId && pa.OutgoingTxTimeout == pb.OutgoingTxTimeout && len(pa.Chains) == len(pb.Chains) && pa.AverageBlockTime == pb.AverageBlockTime)
+	vrt.Check("c15.preserved[params]", pa.GravityId == pb.GravityId && pa.OutgoingTxTimeout == pb.OutgoingTxTimeout && len(pa.Chains) == len(pb.Chains) && pa.AverageBlockTime == pb.AverageBlockTime)
 }
